@@ -70,11 +70,12 @@ LOOP16_SUBGRAPH_SOLUTION = {
     "+ [var.unwrap_type() for var in v_initial]"
 }
 SCAN16_SUBGRAPH_SOLUTION = {
-    "body": "[Tensor(var.unwrap_tensor().dtype, "
+    "body": "[var.unwrap_tensor() for var in initial_state_and_scan_inputs["
+    "   :len(initial_state_and_scan_inputs) - num_scan_inputs]] + "
+    "[Tensor(var.unwrap_tensor().dtype, "
     "   (lambda x: x[1:] if x is not None else None)(var.unwrap_tensor().shape)) "
-    "for var in initial_state_and_scan_inputs[:num_scan_inputs]] + "
-    "[Tensor(var.unwrap_tensor().dtype) "
-    "for var in initial_state_and_scan_inputs[num_scan_inputs:]]"
+    "for var in initial_state_and_scan_inputs["
+    "   len(initial_state_and_scan_inputs) - num_scan_inputs:]]"
 }
 SEQUENCEMAP17_SUBGRAPH_SOLUTION = {
     "body": "[typing_cast(SpoxSequence, input_sequence.unwrap_type()).elem_type] + "
